@@ -29,6 +29,14 @@ def check_C15(tier):
         # the oracle in its own process; the concurrent phase in a FRESH process, so that the
         # goroutines are the first callers (lazily initialised shared state is not pre-warmed)
         p0 = run([exe, "-phase", "seq", "-out", tra, "-stats", stats + ".seq"] + common_args, env=env, timeout=1500, ok_codes=(0, 66))
+        # "alone" must not depend on what ran before: the same calls in reverse and in shuffled order, each in
+        # its own process; all sequential results of one call must agree
+        extra_seq = []
+        for oi, order in enumerate(["reverse", "shuffle"] if i == 0 or tier == "thorough" else ["reverse"]):
+            px = run([exe, "-phase", "seq", "-order", order, "-out", tra + "." + order, "-stats", stats + ".seq." + order] + common_args,
+                     env=env, timeout=1500, ok_codes=(0, 66))
+            extra_seq.append(tra + "." + order)
+            p0.stderr += px.stderr
         p = run([exe, "-phase", "conc", "-rounds", "2" if tier == "quick" else "3", "-out", tr + ".conc", "-stats", stats] + common_args,
                 env=env, timeout=1500, ok_codes=(0, 66, 2))
         crashed = None
@@ -43,10 +51,12 @@ def check_C15(tier):
                 raise Infra("concdrive failed rc=2\n%s" % p.stderr[-3000:])
         with open(tr, "w") as f:
             f.write(open(tra).read())
+            for x in extra_seq:
+                f.write(open(x).read())
             f.write(open(tr + ".conc").read())
         p.stderr = p0.stderr + p.stderr
         st = json.load(open(stats))
-        n = st["events"] + json.load(open(stats + ".seq"))["events"]
+        n = st["events"] + json.load(open(stats + ".seq"))["events"] + sum(sum(1 for _ in open(x)) for x in extra_seq)
         if crashed:
             with open(tr, "a") as f:
                 f.write(json.dumps({"ev": "race", "g": -1, "n": 0, "op": "", "res": "", "sigidx": -1, "text": (crashed[0] + "\n" + p.stderr[-3000:])}) + "\n")
